@@ -38,8 +38,9 @@ class SmtpRelayError(RelayError):
 
     def __init__(self, type, reply):
         command = reply.command or b'[unknown command]'
-        msg = '{0} failure on {1}: {2}'.format(
-            type, command.decode('ascii'), str(reply))
+        if isinstance(command, bytes):
+            command = command.decode('ascii', 'replace')
+        msg = '{0} failure on {1}: {2}'.format(type, command, str(reply))
         super(SmtpRelayError, self).__init__(msg, reply)
 
     @staticmethod
